@@ -115,7 +115,9 @@ theorem rolls_bound (path : Path) (am : Bool) (m : Nat) (roll : RollFn) (ops : L
 
 /-- In the lifetime of one appender — any history of appends (any record, any injected roller
 fault) and clock ticks — the on-start-up trigger requests at most one rotation; with restarts, at
-most one per appender built. -/
+most one per appender built. `rolls` counts every invocation of the roller, successful or failed
+(`Out.rolled.isSome`): `process` calls `cfg.roll` exactly once per firing of the trigger, so this is
+the number of rotation requests (the harness counts `Roll::roll` calls through a wrapper). -/
 theorem C17_at_most_one_roll (path : Path) (am : Bool) (m : Nat) (roll : RollFn) (d : Disk) (now : Nat) (ops : List Op) :
     rolls (run (startupCfg path am m roll) (init (startupCfg path am m roll) d false now) ops).1 ≤ 1 + restarts ops := by
   have h := rolls_bound path am m roll ops _ (WF_init (startupCfg path am m roll) d false now)
@@ -285,6 +287,14 @@ example :
     let a1 := append cfg s0 [[9]] (fun _ => false)
     a1.1.rolled = some true ∧ a1.2.disk.get? demoPath = some [9] ∧
       (append cfg a1.2 [[8]] (fun _ => false)).1.rolled = none := by
+  decide +kernel
+
+/-- min_size = u64::MAX (and 2^63): a 3-byte file is never big enough (the model compares natural
+numbers; a signed subtraction in the code would roll here) -/
+example :
+    let s0 := fun m => init (startupCfg demoPath true m (fun p f d => deleteRoll p f d)) (Disk.empty.set demoPath [1, 2, 3]) false 0
+    (append (startupCfg demoPath true 18446744073709551615 (fun p f d => deleteRoll p f d)) (s0 18446744073709551615) [[9]] (fun _ => false)).1.rolled = none ∧
+    (append (startupCfg demoPath true 9223372036854775808 (fun p f d => deleteRoll p f d)) (s0 9223372036854775808) [[9]] (fun _ => false)).1.rolled = none := by
   decide +kernel
 
 /-- min_size 3, a 2-byte file: no rotation, the record is appended -/
